@@ -67,7 +67,7 @@ class P:
         # extended operator sets: fresh process per history
         nh = 60 if tier == "quick" else 3000
         hist = []
-        pool_sym = ["<->", "+++", "=>", "**", "!!", "<>", "%%", "->", "|>", "::", "+-+", "&&&",
+        pool_sym = ["<->", "+++", "=>", "**", "!!", "<>", "%%", "->", "|>", "::", "??", ":=", "?:", ":>", "?=", "+-+", "&&&",
                     # symbolic operators that continue with characters outside the fixed operator set
                     "=~", "!~", "-~", "<$>", "+x", "*.", "=a="]
         pool_word = ["hi", "xor", "nand", "is", "like", "IN", "notin", "be"]
